@@ -216,15 +216,21 @@ def generate(ctx, module, cfg, out_path, workers=4, timeout=600, simulate=None, 
         sys.stdout.write(r.text[-4000:])
         raise ToolError("generator %s/%s failed" % (module, cfg))
     seen = set()
+    uniq = []
+    for b in beh:
+        h = hashlib.md5(b.encode()).digest()
+        if h in seen:
+            continue
+        seen.add(h)
+        uniq.append(b)
+    if limit is not None and len(uniq) > limit:
+        # an evenly spaced sample of the enumeration, not its first entries
+        step = len(uniq) / float(limit)
+        uniq = [uniq[int(i * step)] for i in range(limit)]
     with open(out_path, "a") as f:
-        n = 0
-        for b in beh:
-            h = hashlib.md5(b.encode()).digest()
-            if h in seen or (limit is not None and n >= limit):
-                continue
-            seen.add(h)
+        for b in uniq:
             f.write(b + "\n")
-            n += 1
+    n = len(uniq)
     if not simulate:
         ctx.states += r.distinct
         ctx.transitions += r.generated
